@@ -778,6 +778,26 @@ pub fn c13(tier: &str) -> i32 {
     let mut pc = Profile::core("toggles-core", 1, 10);
     pc.toggles = true;
     plans.push(plan("core + toggles", pc, 3, if t { 6 } else { 5 }));
+    // long histories in a minimal alphabet (one volume, no market orders): books crossed by a
+    // placement or by a modification while trading is off, re-enabled, then every re-pricing -
+    // also one that moves away from the touch but still crosses
+    for start in [true, false] {
+        let mut pd = Profile::core(if start { "toggles-deep" } else { "toggles-deep-start-off" }, 1, 10);
+        pd.toggles = true;
+        pd.modify = true;
+        pd.modify_prices = true;
+        pd.modify_vols = vec![];
+        pd.limit_vols = vec![1];
+        pd.market_vols = vec![];
+        pd.start_trading = start;
+        pd.max_orders = 3;
+        plans.push(plan(
+            &format!("one volume, three prices, at most three orders, re-pricing + toggles, trading {} at start", if start { "on" } else { "off" }),
+            pd,
+            3,
+            if t { 8 } else { 6 },
+        ));
+    }
     with_bases(&mut plans, "toggles", &p, 3, if t { 4 } else { 2 });
     for tick in [2u32, 10] {
         let top = (u32::MAX - 1) / tick;
